@@ -1,4 +1,5 @@
 pub mod c03;
+pub mod c04;
 pub mod c05;
 pub mod c05file;
 pub mod c16;
